@@ -14,20 +14,21 @@ import (
 )
 
 type RunConfig struct {
-	HarnessDir string
-	Harnesses  []string
-	Property   string
-	Tier       string
-	Workers    int
-	Out        string
-	Solver     string
-	Trace      bool
-	MaxPaths   int
-	Groups     []string
-	ReplayDir  string
-	KnownFile  string
-	NoNative   bool
-	Params     map[string]int
+	HarnessDir    string
+	Harnesses     []string
+	Property      string
+	Tier          string
+	Workers       int
+	Out           string
+	Solver        string
+	Trace         bool
+	MaxPaths      int
+	Groups        []string
+	ReplayDir     string
+	KnownFile     string
+	NoNative      bool
+	Params        map[string]int
+	HarnessParams map[string]map[string]int
 }
 
 type KnownFinding struct {
@@ -202,7 +203,7 @@ func runCheck(cfg *RunConfig) int {
 		}
 		h := &HarnessRun{prog: prog, name: hn, property: cfg.Property, fn: fn, tier: cfg.Tier,
 			feasTimeoutMs: 3000, assertTimeoutMs: 10000, maxSteps: 3000000, maxPaths: cfg.MaxPaths,
-			fixedPicks: map[string]int{}, knownActive: knownActive, params: cfg.Params,
+			fixedPicks: map[string]int{}, knownActive: knownActive, params: mergeParams(cfg.Params, cfg.HarnessParams[hn]),
 			aborted: map[string]int{}, abortMsgs: map[string]int{}, labels: map[string]*labelStat{},
 			covers: map[string]*Scenario{}, coverHits: map[string]int{}, knownHits: map[string]*Scenario{},
 			entered: map[string]int{}, intrinsics: map[string]int{}, mapRanges: map[string]int{}, shapes: map[string]int{}}
@@ -215,6 +216,7 @@ func runCheck(cfg *RunConfig) int {
 			for _, g := range cfg.Groups {
 				h.groups[g] = true
 			}
+			h.groups["no-panic"] = true
 		}
 		applyHarnessOptions(h)
 		h.runAll(cfg.Workers)
@@ -427,6 +429,17 @@ func runCheck(cfg *RunConfig) int {
 	return exit
 }
 
+func mergeParams(base, over map[string]int) map[string]int {
+	out := map[string]int{}
+	for k, v := range base {
+		out[k] = v
+	}
+	for k, v := range over {
+		out[k] = v
+	}
+	return out
+}
+
 func normVal(s string) string {
 	s = strings.TrimSpace(s)
 	s = strings.ReplaceAll(s, " ", "")
@@ -479,7 +492,7 @@ func writeEvidence(cfg *RunConfig, runs []*HarnessRun, seed int, wall float64, v
 			}
 		}
 		harnessSummaries = append(harnessSummaries, map[string]interface{}{
-			"harness": h.name, "paths": h.paths, "completed": h.completed, "infeasible": h.infeasible, "panicked_paths": h.panicked,
+			"harness": h.name, "bounds": h.params, "paths": h.paths, "completed": h.completed, "infeasible": h.infeasible, "panicked_paths": h.panicked,
 			"aborted": h.aborted, "labels": lab, "covers_reached": h.coverHits, "shapes": len(h.shapes), "path_limit_hit": h.pathLimitHit,
 			"feasibility_unknown": h.feasUnknown,
 		})
